@@ -1,3 +1,5 @@
 import AutoVerif.Gen.Consts
 import AutoVerif.Model.Types
 import AutoVerif.Props.C04
+import AutoVerif.Props.C01
+import AutoVerif.Props.C02
